@@ -1746,6 +1746,8 @@ def c16_cases(tier, seed):
             meta["stdout_close_after"] = rng.choice([1, 8, 12, 20, 40])    # ... or is a pipe whose reader goes away after a few bytes
         elif r9 < 0.30:
             meta["stdin_ro"] = 1           # standard input is the terminal opened read-only
+        elif r9 < 0.40:
+            meta["preferterm"] = 1         # standard input is a pipe, the editor opens the controlling terminal itself (PreferTerm)
         c = Case(keys, mode=mode, timeout=0, prompt="> ", reads=nreads * 3, chunks=chunks, helper=True, validator="script",
                  cands=["abc", "abd"], meta=meta)
         cases.append(c)
@@ -2356,6 +2358,22 @@ def c19_cases(tier, seed):
         k = max(0, len(cmds) - 3)
         c.meta.update({"printers": 1, "prints": {}, "no_model": 1, "sync_keys": 1,
                        "bursts": {k: [(0, big)]}, "blocked_resizes": {k: [70, 60, 50, 80]}})
+        cases.append(c)
+    # a message handed over at the very moment keys arrive, in an application whose key handling takes a few milliseconds: the
+    # terminal and the printer's wake-up are then ready for ONE wait -- the message is still shown by the time the read waits with
+    # nothing pending, and so is every later one
+    for i in range(max(4, n // 25)):
+        mode = ["emacs", "vi"][i % 2]
+        cmds = gen_c19(rng, mode)[:4] + [Cmd(["F12"], "noop"), Cmd(["Enter"], "enter")]
+        cmds = [c for c in cmds if c.keys != ["C-z"]]
+        chunks = [b"".join(p_tty.key_bytes(k) for k in cmd.keys) for cmd in cmds]
+        k0 = rng.randrange(0, max(1, len(cmds) - 2))
+        bursts = {k0: [(0, "<0:0:with-keys>"), (0, "<0:1:after>")]}
+        if len(cmds) > 3 and i % 2:
+            bursts[len(cmds) - 2] = [(0, "<0:2:last>")]
+        c = script_case(cmds, mode=mode, chunks=chunks, cols=80, prompt="> ", timeout=0 if mode == "vi" else "none", reads=2)
+        c.meta.update({"printers": 1, "prints": {}, "bursts": bursts, "burst_keys": {k0: b"xy" if i % 3 else b"x"},
+                       "key_delay_ms": 4, "no_model": 1})
         cases.append(c)
     # bursts: several threads are told to print at once, without waiting for one another (the editor may find
     # more than one wake-up pending); which message comes first is not determined, the oracle does not care
